@@ -27,6 +27,8 @@ pub enum Target {
     StudentT { d: usize, nu: f64 },
     /// skewed product target: logp = sum( a*x - exp(x) )  (log-gamma like)
     Skewed { d: usize, a: f64 },
+    /// another target with a constant added to its log density (same gradient)
+    Offset { inner: Box<Target>, c: f64 },
 }
 
 impl Target {
@@ -44,11 +46,13 @@ impl Target {
             Target::Quartic { d } => *d,
             Target::StudentT { d, .. } => *d,
             Target::Skewed { d, .. } => *d,
+            Target::Offset { inner, .. } => inner.dim(),
         }
     }
     /// log density and gradient, plain scalar code (this is also the reference the oracles use)
     pub fn logp(&self, x: &[f64], g: &mut [f64]) -> f64 {
         match self {
+            Target::Offset { inner, c } => inner.logp(x, g) + c,
             Target::DiagNormal { mu, sigma } => {
                 let mut lp = 0.0;
                 for i in 0..x.len() {
@@ -117,6 +121,11 @@ pub enum FaultKind {
     GradInf,
     /// finite log density 1e6 lower than the truth: energy error far above any max_energy_error
     HugeDrop,
+    /// finite log density 600 / 1500 lower than the truth: with the default max_energy_error of
+    /// 1000 the first is no fault by itself, the second is an energy error above the limit
+    /// (relative to the START of the trajectory)
+    Drop600,
+    Drop1500,
 }
 
 impl FaultKind {
@@ -140,6 +149,8 @@ impl FaultKind {
             FaultKind::GradNan => "grad_nan",
             FaultKind::GradInf => "grad_inf",
             FaultKind::HugeDrop => "huge_drop",
+            FaultKind::Drop600 => "drop_600",
+            FaultKind::Drop1500 => "drop_1500",
         }
     }
 }
@@ -264,6 +275,8 @@ impl CpuLogpFunc for Dens {
                     }
                 }
                 FaultKind::HugeDrop => lp -= 1e6,
+                FaultKind::Drop600 => lp -= 600.0,
+                FaultKind::Drop1500 => lp -= 1500.0,
             }
         }
         if log.record_positions {
